@@ -1,6 +1,7 @@
 import Crv.Proofs.ReaderRoundTrip
 import Crv.Proofs.Skeleton
 import Crv.Props.C06Pem
+import Crv.ReaderFile
 import Crv.Props.C06Chunk
 /-!
 C06 — the streaming reader agrees with the whole-document encoding, for every document of the
@@ -135,6 +136,32 @@ example : (readCRL exOracle (enc exDoc)).events =
     [.start (seqOf [49, 0]) [50, 52] (some [50, 53]), .insert (seqOf [2, 1, 5, 23, 0]), .insert (seqOf [2, 1, 6, 23, 0]),
      .extMeta (some 7)] :=
   (read_enc exOracle exDoc _ _ _ _ exDoc_wf).1
+
+/-- **Encoding independence.** The PEM form (64-column base64 between BEGIN/END lines, LF or CRLF) of every document of the
+profile is detected as PEM and read exactly like its DER form; a DER file is read as it is. With `read_enc` this gives the
+round trip for all three encodings. -/
+theorem read_pem_enc (O : Oracle) (d : Doc) (crlf : Bool) (label : List UInt8) (hl : Pem.labelOk label)
+    (hlen : label.length ≤ 4078) :
+    readCRLFile O (Pem.pemEncode crlf label (enc d)) = readCRL O (enc d) := by
+  unfold readCRLFile fileBytes
+  rw [C06.Pem.pem_detected crlf label (enc d) hl hlen]
+  simp only [↓reduceIte]
+  rw [C06.Pem.pem_round_trip crlf label (enc d) hl]
+
+theorem read_der_enc (O : Oracle) (d : Doc) : readCRLFile O (enc d) = readCRL O (enc d) := by
+  unfold readCRLFile fileBytes
+  have h : ∃ t, enc d = 0x30 :: t := ⟨_, rfl⟩
+  obtain ⟨t, ht⟩ := h
+  rw [ht, C06.Pem.der_not_pem t]
+  simp
+
+/-- LF and CRLF PEM files of the same document are read alike (whatever the document). -/
+theorem read_pem_lf_crlf (O : Oracle) (der label : List UInt8) (hl : Pem.labelOk label) (hlen : label.length ≤ 4078) :
+    readCRLFile O (Pem.pemEncode true label der) = readCRLFile O (Pem.pemEncode false label der) := by
+  unfold readCRLFile fileBytes
+  rw [C06.Pem.pem_detected true label der hl hlen, C06.Pem.pem_detected false label der hl hlen]
+  simp only [↓reduceIte]
+  rw [C06.Pem.pem_round_trip true label der hl, C06.Pem.pem_round_trip false label der hl]
 
 /-- The hand-written `Reader` model this property rests on was transcribed from exactly these sources: the fingerprints are
 recomputed from /repo on every run (tools/extract/skeleton.go), so any change to one of the functions breaks this obligation. -/
